@@ -12,7 +12,9 @@ LEVEL = {
            "writer/reader run never fails, resolves every wire index to the intended string, keeps live entries ≤ size and all "
            "ids in [0,size] (induction over the history with a mirror invariant; stronger than the stated 1..8 bound). "
            "C05_prefix_disabled covers the disabled table. Tied to lookup.py by the LOOKUP differential on LookupEncoder/"
-           "LookupDecoder and on TermEncoder→Decoder histories.",
+           "LookupDecoder and on TermEncoder→Decoder histories. C05_term_level_iris lifts it to the term level: for every "
+           "name table ≥ 8, every prefix/datatype table size ≤ 4096 and EVERY finite IRI history, the real term encoder's "
+           "entry rows + (prefix_id, name_id) pair, fed to the decoder, reconstruct every IRI (zero-delta ids on both sides).",
     "C08": "Theorems C08_hint_delimited / C08_hint_single: every delimited stream whose first frame is empty or starts with a "
            "row, and every bare frame starting with its options row, is classified correctly from its first three bytes, for "
            "all frame/row lengths including 10=0x0A (case analysis on the varint head). The detector itself is tabulated from "
@@ -87,7 +89,10 @@ LEVEL = {
     "C07": "Theorems C07_frames_eq_rows / C07_repartition (decoding frames == decoding the concatenated rows, for every frame "
            "list incl. empty frames; hence any two partitions agree), C07_grouped_one_per_frame, C07_grouped_concat_eq_flat "
            "(for every byte string and source kind), C07_one_frame_per_nonempty_sink (grouped serialization), "
-           "C06_rows_independent_of_flow (state carried across frames: one stream, rows independent of cuts).",
+           "C06_rows_independent_of_flow (state carried across frames: one stream, rows independent of cuts). "
+           "C07_grouped_triples_valid / C07_grouped_quads_valid: grouped_stream_to_frames over ANY list of sinks sharing one "
+           "stream (tables and repeated terms carried from sink to sink) is valid for the reference decoder and denotes the "
+           "concatenation of the sinks' statements.",
     "C02": "C02_graphs_dataset / C02_triples_dataset: a Dataset written graph by graph through a GraphStream (any enumeration order, "
            "empty graphs, repeated names) or a Graph/Dataset written through a TripleStream is valid for the reference decoder "
            "and denotes every statement under its graph name. The rdflib serializer is the generic writer model under other loops: C02_graphs_loops_agree and "
